@@ -214,7 +214,9 @@ fn parse_line(line: &str) -> Option<Case> {
         let ann = if at == ["-"] { vec![] } else { toks(fam, at)? };
         (wd, ann, None)
     };
-    let nh = match w[n - 3] {
+    let (nh_tok, av) = match w[n - 3].split_once('@') { None => (w[n - 3], 0u8), Some((t, "m")) => (t, 1), Some((t, "c")) => (t, 2), Some(_) => return None };
+    ADDR_VARIANT.with(|c| c.set(av));
+    let nh = match nh_tok {
         "-" => Nh::Default, "v4" => Nh::V4, "m4" => Nh::M4, "v6" => Nh::V6, "ll" => Nh::Ll, "ll2" => Nh::Ll2, "llx" => Nh::Llx,
         "vpn4" => Nh::Vpn4, "vpn6" => Nh::Vpn6, "empty" => Nh::Empty, "unimpl" => Nh::Unimpl, "ll3" => Nh::Ll3, "v4ll" => Nh::V4ll,
         "m6" => Nh::M6, "m6ll" => Nh::M6ll, "pll" => Nh::Pll, "pv6" => Nh::Pv6, "pv6ll" => Nh::Pv6ll, _ => return None,
@@ -361,7 +363,21 @@ fn ref_nlri(f: Fam, size: usize, idx: usize) -> Vec<u8> {
 }
 
 const V4NH: [u8; 4] = [10, 0, 0, 1];
-const V6NH: [u8; 16] = [0x20, 0x01, 0x0d, 0xb8, 0, 0, 0, 0, 0, 0, 0, 0, 0, 0, 0, 1];
+const V6NH_PLAIN: [u8; 16] = [0x20, 0x01, 0x0d, 0xb8, 0, 0, 0, 0, 0, 0, 0, 0, 0, 0, 0, 1];
+thread_local! {
+    /// address variant of the IPv6 global next hop of the request being handled (set by `parse`): 0 = 2001:db8::1,
+    /// 1 = IPv4-mapped ::ffff:10.0.0.1 (nh token suffix `@m`), 2 = IPv4-compatible ::10.0.0.1 (`@c`).  A next hop is
+    /// the sixteen octets the caller gave, whatever they denote (round-6 seed: `to_canonical()` in set_mp_nexthop).
+    static ADDR_VARIANT: std::cell::Cell<u8> = const { std::cell::Cell::new(0) };
+}
+#[allow(non_snake_case)]
+fn V6NH_now() -> [u8; 16] {
+    match ADDR_VARIANT.with(|c| c.get()) {
+        1 => [0, 0, 0, 0, 0, 0, 0, 0, 0, 0, 0xff, 0xff, 10, 0, 0, 1],
+        2 => [0, 0, 0, 0, 0, 0, 0, 0, 0, 0, 0, 0, 10, 0, 0, 1],
+        _ => V6NH_PLAIN,
+    }
+}
 const LLNH: [u8; 16] = [0xfe, 0x80, 0, 0, 0, 0, 0, 0, 0, 0, 0, 0, 0, 0, 0, 1];
 const LLNH_OLD: [u8; 16] = [0xfe, 0x80, 0, 0, 0, 0, 0, 0, 0, 0, 0, 0, 0, 0, 0xab, 0xcd];
 const RD: [u8; 8] = [0, 1, 0, 2, 0, 3, 0, 4];
@@ -379,14 +395,14 @@ fn ref_nh(f: Fam, nh: Nh) -> Vec<u8> {
         // `set_nexthop` not called: the all-zero next hop of the family's natural form
         Nh::Default => { let n = default_nh_bytes(f); v.push(n as u8); v.extend(std::iter::repeat(0u8).take(n)); }
         Nh::V4 | Nh::M4 => { v.push(4); v.extend_from_slice(&V4NH); }
-        Nh::V6 | Nh::M6 | Nh::Pv6 => { v.push(16); v.extend_from_slice(&V6NH); }
+        Nh::V6 | Nh::M6 | Nh::Pv6 => { v.push(16); v.extend_from_slice(&V6NH_now()); }
         // (m6ll: if it is accepted at all, RFC 2545 3 gives the 32-octet form)
-        Nh::Ll | Nh::Ll2 | Nh::Llx | Nh::Pv6ll | Nh::M6ll => { v.push(32); v.extend_from_slice(&V6NH); v.extend_from_slice(&LLNH); }
+        Nh::Ll | Nh::Ll2 | Nh::Llx | Nh::Pv6ll | Nh::M6ll => { v.push(32); v.extend_from_slice(&V6NH_now()); v.extend_from_slice(&LLNH); }
         // a link-local address given alone: the global one is unspecified (::) - which is also the
         // default next hop of the IPv6 families that `pll` finds in place
         Nh::Ll3 | Nh::Pll => { v.push(32); v.extend_from_slice(&[0; 16]); v.extend_from_slice(&LLNH); }
         Nh::Vpn4 => { v.push(12); v.extend_from_slice(&RD); v.extend_from_slice(&V4NH); }
-        Nh::Vpn6 => { v.push(24); v.extend_from_slice(&RD); v.extend_from_slice(&V6NH); }
+        Nh::Vpn6 => { v.push(24); v.extend_from_slice(&RD); v.extend_from_slice(&V6NH_now()); }
         Nh::Empty => v.push(0),
         // no wire form: the builder must refuse it
         Nh::Unimpl | Nh::V4ll => {}
@@ -597,7 +613,7 @@ struct Run { items: Vec<Item>, hang: bool, rem: Option<bool>, split_err: bool, n
 
 fn real_nh(nh: Nh) -> Option<NextHop> {
     let v4 = IpAddr::V4(Ipv4Addr::from(V4NH));
-    let v6 = Ipv6Addr::from(V6NH);
+    let v6 = Ipv6Addr::from(V6NH_now());
     Some(match nh {
         Nh::Default | Nh::Ll3 | Nh::Pll | Nh::Pv6 | Nh::Pv6ll => return None,
         Nh::V4 | Nh::V4ll => NextHop::Unicast(v4),
@@ -622,7 +638,7 @@ fn foreign_pdu(f: Fam) -> UpdateMessage<Bytes> {
     let cfg = SessionConfig::modern();
     let raw: Vec<u8> = if f.b != V6u {
         let mut b = UpdateBuilder::<Vec<u8>, Ipv6UnicastNlri>::new_vec();
-        b.add_withdrawal(Ipv6UnicastNlri::try_from(Prefix::new_v6(Ipv6Addr::from(V6NH), 128).unwrap()).unwrap()).unwrap();
+        b.add_withdrawal(Ipv6UnicastNlri::try_from(Prefix::new_v6(Ipv6Addr::from(V6NH_now()), 128).unwrap()).unwrap()).unwrap();
         b.into_message(&cfg).unwrap().as_ref().to_vec()
     } else {
         let mut b = UpdateBuilder::<Vec<u8>, Ipv4UnicastNlri>::new_vec();
@@ -660,7 +676,7 @@ macro_rules! run_family {
             }
             for (i, s) in c.ann.iter().enumerate() { b.add_announcement(mk(*s, i)).unwrap(); }
             // the next-hop calls that come after the announcements
-            if matches!(c.nh, Nh::Pv6 | Nh::Pv6ll) { b.set_nexthop(NextHop::Unicast(IpAddr::V6(Ipv6Addr::from(V6NH)))).unwrap(); }
+            if matches!(c.nh, Nh::Pv6 | Nh::Pv6ll) { b.set_nexthop(NextHop::Unicast(IpAddr::V6(Ipv6Addr::from(V6NH_now())))).unwrap(); }
             if matches!(c.nh, Nh::Pll | Nh::Pv6ll) { b.set_nexthop_ll_addr(Ipv6Addr::from(LLNH)).unwrap(); }
             b
         };
@@ -677,7 +693,7 @@ macro_rules! run_family {
             }
             if !run.nh_rejected && !c.ann.is_empty() { probe.add_announcement(mk(c.ann[0], 0)).unwrap(); }
             if !run.nh_rejected && matches!(c.nh, Nh::Pv6 | Nh::Pv6ll) {
-                if probe.set_nexthop(NextHop::Unicast(IpAddr::V6(Ipv6Addr::from(V6NH)))).is_err() { run.nh_rejected = true; }
+                if probe.set_nexthop(NextHop::Unicast(IpAddr::V6(Ipv6Addr::from(V6NH_now())))).is_err() { run.nh_rejected = true; }
             }
             if !run.nh_rejected && matches!(c.nh, Nh::Pll | Nh::Pv6ll) {
                 if probe.set_nexthop_ll_addr(Ipv6Addr::from(LLNH)).is_err() { run.nh_rejected = true; }
@@ -914,7 +930,29 @@ fn judge(c: &Case) -> Verdict {
 thread_local! { static LAST: RefCell<Option<(String, Result<(), String>)>> = RefCell::new(None); }
 
 impl Prop for C06 {
-    fn gen(&self, rng: &mut Rng, tier: Tier) -> Vec<String> { gen(rng, tier) }
+    fn gen(&self, rng: &mut Rng, tier: Tier) -> Vec<String> {
+        let mut v = gen(rng, tier);
+        // the IPv6 global next hop in other representations of "an address": every k-th line whose next-hop token
+        // holds one is issued again with the IPv4-mapped (`@m`) and the IPv4-compatible (`@c`) address
+        let k = match tier { Tier::Quick => 12, Tier::Thorough => 40 };
+        let mut extra = Vec::new();
+        let mut seen = 0usize;
+        for l in &v {
+            let w: Vec<&str> = l.split(' ').collect();
+            let n = w.len();
+            if n < 5 || w[n - 4] != "nh" { continue; }
+            if !matches!(w[n - 3], "v6" | "ll" | "ll2" | "llx" | "m6" | "m6ll" | "pv6" | "pv6ll" | "vpn6") { continue; }
+            seen += 1;
+            if seen % k != 0 { continue; }
+            for sfx in ["@m", "@c"] {
+                let mut w2: Vec<String> = w.iter().map(|t| t.to_string()).collect();
+                w2[n - 3] = format!("{}{}", w[n - 3], sfx);
+                extra.push(w2.join(" "));
+            }
+        }
+        v.extend(extra);
+        v
+    }
 
     fn exec(&self, line: &str) -> String {
         LAST.with(|l| *l.borrow_mut() = None);
